@@ -51,7 +51,7 @@ class Module:
             self.norm_counts['tuple_split'] = split_tuple_assignments(self.tree)
             self.renamed = alpha.apply(self.tree, relpath)
             from . import propagate
-            self.propagated = propagate.apply(self.tree, relpath)
+            self.propagated = propagate.apply(self.tree, relpath, loader)
             if self.propagated:
                 # substituted temporaries can complete a loop -> comprehension pattern, which in turn can free another temporary
                 from .normalize import loops_to_comprehensions
